@@ -25,7 +25,7 @@ def run(ctx):
     lines = open(vp).read().splitlines()
     total = len(lines)
     random.Random(ctx.seed).shuffle(lines)
-    lines = lines[:ctx.pick(2500, 40000)]
+    lines = lines[:ctx.pick(1500, 40000)]
     p = os.path.join(ctx.scratch, "c22_neg.ndjson")
     open(p, "w").write("\n".join(lines) + "\n")
     # ---- real stackless.NewFunc, saturated; log validated by TLC
@@ -37,9 +37,17 @@ def run(ctx):
         raise Infra("stackless harness wrote no trace")
     ctx.validate_traces("util", "StacklessTrace", tf, label="stackless.NewFunc", dfs=False, timeout=1700)
     # ---- real codecs: saturation recipe + sequential sweep, then the negotiation table through a server
-    recs = ctx.go_test(".", ["c22_"], "^TestVerifC22", infile=p, timeout=1700, test_timeout=1600,
-                       env={"VERIF_C22_BURSTS": ctx.pick(1, 3)})
-    ctx.absorb(recs)
+    try:
+        recs = ctx.go_test(".", ["c22_"], "^TestVerifC22", infile=p, timeout=1700, test_timeout=1600,
+                           env={"VERIF_C22_BURSTS": ctx.pick(1, 3)})
+        ctx.absorb(recs)
+    except Infra as e:
+        # a crash of the codec harness is an infrastructure error -- unless the stackless part has
+        # already produced violations from real-code behaviour: those stand (exit 1)
+        if not ctx.violations:
+            raise
+        ctx.log("codec harness failed after violations were recorded: %s" % str(e)[:300])
+        ctx.extra["codec_harness_failed"] = True
     ctx.exhaustive = (not ctx.quick) and len(lines) == total
     ctx.extra["negotiation_table_size"] = total
     ctx.rule = ("negotiation case = one table row through a real server (non-trivial = the response was compressed); "
@@ -47,4 +55,4 @@ def run(ctx):
                 "stackless call = one call of the saturated NewFunc wrapper (non-trivial = rejected)")
     ctx.assumptions = ["queue capacity/worker count fixed by making the first call of each entry point at GOMAXPROCS(1)",
                        "Accept-Encoding members are q-less except the adversarial 'gzip;q=0'",
-                       "quick tier: lists of <= 2 members, 2500 sampled rows; thorough: <= 3 members, all rows"]
+                       "quick tier: lists of <= 2 members, 1500 sampled rows; thorough: <= 3 members, all rows"]
